@@ -47,7 +47,39 @@ static std::optional<Failure> check_one(Run &R, const Bytes &a, bool guard) {
                            " before eav_init (" + (v ? "EAV_EXTRA build" : "default build") + "): a field that eav_init does not set is read"};
     return std::nullopt;
 }
-static bool run_one(Run &R, const Bytes &a, bool guard = false) { auto f = check_one(R, a, guard); return !(f && !R.fail(*f)); }
+// Leak oracle: LSan's recoverable check runs per batch (it is expensive and finds a leaked block only
+// once no stale pointer to it survives, so it cannot name the input).  On a report, the culprit is found
+// by allocation accounting: an input that leaks makes the allocator's live-byte count grow on every
+// repetition (__sanitizer_get_current_allocated_bytes, freed memory does not count).
+extern "C" size_t __sanitizer_get_current_allocated_bytes(void);
+static std::vector<Bytes> g_recent;
+static long growth(const Bytes &a, int reps) {
+    ExactBuf b(a);
+    exercise_all(VAR[0], &OB[0][0], b.p, a.size()); exercise_all(VAR[1], &OB[1][0], b.p, a.size());   // settle (result records are replaced, not accumulated)
+    size_t before = __sanitizer_get_current_allocated_bytes();
+    for (int i = 0; i < reps; i++) { exercise_all(VAR[0], &OB[0][0], b.p, a.size()); exercise_all(VAR[1], &OB[1][0], b.p, a.size()); }
+    return (long) __sanitizer_get_current_allocated_bytes() - (long) before;
+}
+static bool leaks(const Bytes &a) { return growth(a, 8) > 0 && growth(a, 32) >= 32; }
+static std::optional<Failure> leak_guard(Run &R, bool force) {
+    if (!force && g_recent.size() < 400) return std::nullopt;
+    std::optional<Failure> res;
+    if (__lsan_do_recoverable_leak_check() != 0) {
+        for (const Bytes &a : g_recent)
+            if (leaks(a)) { res = Failure{"leak", mkcase(a).str(), "memory allocated while validating '" + show(a.substr(0, 120)) + "' is never released: live heap bytes grow with every repetition of the same calls (all entry points, results freed), and LeakSanitizer reports unreachable blocks"}; break; }
+        if (!res) res = Failure{"leak", mkcase(g_recent.empty() ? Bytes() : g_recent.back()).str(), "LeakSanitizer reported a leak for a batch of inputs but no single input shows allocation growth"};
+    }
+    g_recent.clear();
+    (void) R;
+    return res;
+}
+static bool run_one(Run &R, const Bytes &a, bool guard = false) {
+    auto f = check_one(R, a, guard);
+    if (f && !R.fail(*f)) return false;
+    g_recent.push_back(a);
+    auto l = leak_guard(R, false);
+    return !(l && !R.fail(*l));
+}
 
 static std::vector<Bytes> templates() {
     std::vector<Bytes> t = {"simple@test.com", "a.b.c@sub.example.org", "\"q q\\\"x\"@mail.ru", "\"a\".\"b\"@x.museum", "\xD0\xB8\xD0\xB2\xD0\xB0\xD0\xBD@\xD0\xBF\xD0\xBE\xD1\x87\xD1\x82\xD0\xB0.\xD1\x80\xD1\x84",
@@ -73,6 +105,7 @@ static void stage_sweep(Run &R) {
             if (!run_one(R, m)) return;
         }
     }
+    if (auto l = leak_guard(R, true)) { if (!R.fail(*l)) return; }
     R.space("C06 positional byte sweep: " + std::to_string(tpl.size()) + " templates x every structural position (first, last, each side of @ [ ] . \" \\ :) x bytes 0x01..0xFF x {insert, replace} x all entry points x 2 builds x 3 eav_t pre-fills", total);
 }
 
@@ -107,7 +140,7 @@ static void stage_shapes(Run &R) {
         R.sample("shape", "shape " + std::to_string(k) + " length " + std::to_string(n), 4);
     }
     for (int x = 1; x < 256; x++) { total++; if ((int) (idx++ % R.a.nworkers) != R.a.worker) continue; if (!run_one(R, Bytes(1, (char) x))) return; if (!run_one(R, Bytes(1, (char) x), true)) return; }
-    if (__lsan_do_recoverable_leak_check() != 0) R.fail(Failure{"leak", g_case, "LeakSanitizer reports unreleased memory during the shapes stage"});
+    if (auto l = leak_guard(R, true)) R.fail(*l);
     R.space("C06 14 adversarial shapes x 18 lengths (0, 1, 2, 63-66, 253-257, 1023-1025, 4096, 65535, 65536) + all 1-byte inputs, each also in a read-only page against a guard page", total);
 }
 
@@ -115,17 +148,19 @@ static void stage_guard(Run &R) {
     uint64_t i = 0;
     for (const Bytes &l : corpus_lines(R.a.datadir)) { if ((int) (i++ % R.a.nworkers) != R.a.worker) continue; if (!run_one(R, l, true)) return; R.count("corpus-lines-guarded"); }
     for (const Bytes &t : templates()) { if ((int) (i++ % R.a.nworkers) != R.a.worker) continue; for (size_t n = 0; n <= t.size(); n++) if (!run_one(R, t.substr(0, n), true)) return; }
+    if (auto l = leak_guard(R, true)) R.fail(*l);
 }
 
 static void stage_random(Run &R) {
-    uint64_t n = 0;
     rc_run(R, "C06 all entry points on generated inputs (exact-size heap block, 3 eav_t pre-fills, 2 builds)", 4.0, [&](Src &s) -> std::optional<Failure> {
         Bytes a = gen_address(s, T);
         if (s.chance(1, 8)) { Bytes pad(200 + s.pick(3000), char('a' + s.pick(26))); a.insert(s.pick((uint32_t) a.size() + 1), pad); }
         auto f = check_one(R, a, s.chance(1, 4));
-        if (!f && ++n % 500 == 0 && __lsan_do_recoverable_leak_check() != 0) return Failure{"leak", g_case, "LeakSanitizer reports unreleased memory (within the last 500 inputs)"};
-        return f;
+        if (f) return f;
+        g_recent.push_back(a);
+        return leak_guard(R, false);
     });
+    if (!R.failed()) if (auto l = leak_guard(R, true)) R.fail(*l);
 }
 
 // writes generated inputs (hex, one per line) for the valgrind replay stage
@@ -138,7 +173,12 @@ static void stage_emit(Run &R) {
 
 int main(int argc, char **argv) {
     return std_main(argc, argv, "C06", {{"emit", stage_emit}, {"sweep", stage_sweep}, {"shapes", stage_shapes}, {"guard", stage_guard}, {"random", stage_random}},
-        [](Run &R, const Case &c) -> std::optional<Failure> { Bytes a = c.getb("input"); auto f = check_one(R, a, false); if (f) return f; return check_one(R, a, true); }, [] { return g_case; },
+        [](Run &R, const Case &c) -> std::optional<Failure> {
+            Bytes a = c.getb("input"); __lsan_do_recoverable_leak_check();
+            auto f = check_one(R, a, false); if (f) return f;
+            f = check_one(R, a, true); if (f) return f;
+            if (leaks(a)) return Failure{"leak", mkcase(a).str(), "memory allocated while validating this input is never released (live heap bytes grow with every repetition)"};
+            return std::nullopt; }, [] { return g_case; },
         [](Run &R) {
             if (!T.load(R.a.datadir)) return false;
             for (int v = 0; v < 2; v++) for (int f = 0; f < 3; f++) if (!make_objs(VAR[v], &OB[v][f], PREFILL[f])) return false;
